@@ -159,6 +159,18 @@ class Factory:
             return self.open_journal_redis()
         raise ValueError(kind)
 
+    def grpc_over(self, inner: Any) -> Any:
+        """A proxy client (fresh cache) in front of an existing storage object."""
+        slot = next((s for s in self._slots if not s.busy), None)
+        if slot is None:
+            slot = _GrpcSlot()
+            self._slots.append(slot)
+        slot.busy = True
+        slot.switch.target = inner
+        proxy = slot.fresh_proxy()
+        proxy._verif_slot = slot
+        return proxy
+
     def release(self) -> None:
         """End of an example: free gRPC slots, dispose engines, delete scratch files."""
         for s in self._slots:
